@@ -288,8 +288,13 @@ def run(ctx):
                 w.write_boolean(b)
                 spec.append(("bool", b))
             else:
-                with (w.push_sequence() if k == "seq" else w.push_set()) as inner:
-                    spec.append((k, build(inner, depth - 1)))
+                # default tag, or an explicit tag of any class / number in EITHER form (the property: every tag written is read back identically)
+                tag = None
+                if rng.random() < 0.5:
+                    tag = ASN1Tag(rng.choice([TagClass.CONTEXT_SPECIFIC, TagClass.APPLICATION, TagClass.PRIVATE]), rng.choice([0, 3, 16, 17, 30, 31, 200]),
+                                  rng.random() < 0.5)
+                with (w.push_sequence(tag) if k == "seq" else w.push_set(tag)) as inner:
+                    spec.append((k, build(inner, depth - 1), tag))
         return spec
 
     def readback(r, spec):
@@ -300,10 +305,16 @@ def run(ctx):
                 assert r.read_octet_string(tag=item[2]) == item[1]
             elif item[0] == "bool":
                 assert r.read_boolean() == item[1]
-            elif item[0] == "seq":
-                readback(r.read_sequence(), item[1])
             else:
-                readback(r.read_set(), item[1])
+                tag = item[2]
+                if tag is not None:
+                    h = r.peek_header()
+                    assert (h.tag.tag_class, h.tag.tag_number, h.tag.is_constructed) == (tag.tag_class, tag.tag_number, tag.is_constructed), \
+                        f"tag written {tuple(tag)} is read back as {tuple(h.tag)}"
+                if item[0] == "seq":
+                    readback(r.read_sequence(tag=tag) if tag is not None else r.read_sequence(), item[1])
+                else:
+                    readback(r.read_set(tag=tag) if tag is not None else r.read_set(), item[1])
         assert not r
 
     for _ in range(ctx.scale(500, 10000)):
@@ -314,7 +325,7 @@ def run(ctx):
         try:
             readback(ASN1Reader(data), spec)
         except BaseException as e:  # noqa: BLE001
-            violations.append({"key": None, "what": f"nested sequence/set round trip failed: {type(e).__name__}", "hex": data[:200].hex()})
+            violations.append({"key": None, "what": f"nested sequence/set round trip failed: {type(e).__name__} {e}"[:300], "hex": data[:200].hex()})
         distinct.add(("tree", len(data) // 8, str(spec)[:40]))
     hist["tree"] = ctx.scale(500, 10000)
 
